@@ -90,11 +90,17 @@ class BinningBase:
             if numpy_bins is not None:
                 raise ValueError("Cannot specify numpy_bins and bins at the same time.")
             bins = make_bin_array(bins)
+            if bins.dtype.kind in "iuf" and bins.dtype.itemsize < 8:
+                # Edges of a narrow type would drag widths, centres and measures into that type
+                # (int32 centres wrap around, float32 areas lose half of their digits)
+                bins = bins.astype(np.float64)
             if not is_rising(bins):
                 raise ValueError("Bins must be in rising order.")
             # TODO: Test for consecutiveness?
         elif numpy_bins is not None:
             numpy_bins = to_numpy_bins(numpy_bins)
+            if numpy_bins.dtype.kind in "iuf" and numpy_bins.dtype.itemsize < 8:
+                numpy_bins = numpy_bins.astype(np.float64)
             if not np.all(numpy_bins[1:] > numpy_bins[:-1]):
                 raise ValueError("Bins must be in rising order.")
             self._consecutive = True
